@@ -1,3 +1,170 @@
-//! C19 — not yet built
-use crate::ctx::Ctx;
-pub fn run(c: &mut Ctx) { c.notes.push("C19: not implemented".into()); }
+//! C19 — saving reports sink failures and ignores sink chunking.
+//! Real code: Document::save_to / IncrementalDocument::save_to against scripted sinks.
+//! Model: `sink <script> ; <chunks>` (write_all loop + CountingWrite + `?`).
+use crate::codec::*;
+use crate::ctx::{guard, Ctx};
+use crate::gen::*;
+use crate::props::c01::compare_docs;
+use crate::rng::Rng;
+use lopdf::xref::XrefType;
+use lopdf::{Document, IncrementalDocument};
+use serde_json::json;
+use std::io::{self, Write};
+
+#[derive(Clone, Copy, Debug)]
+enum Resp { Accept(usize), Interrupted, Fail }
+
+/// a sink driven by a finite script; afterwards it accepts everything
+struct ScriptSink { script: Vec<Resp>, pos: usize, delivered: Vec<u8>, calls: Vec<usize> }
+impl Write for ScriptSink {
+    fn write(&mut self, buf: &[u8]) -> io::Result<usize> {
+        self.calls.push(buf.len());
+        if buf.is_empty() { return Ok(0); }
+        if self.pos >= self.script.len() { self.delivered.extend_from_slice(buf); return Ok(buf.len()); }
+        let r = self.script[self.pos]; self.pos += 1;
+        match r {
+            Resp::Accept(k) => { let n = k.min(buf.len()); self.delivered.extend_from_slice(&buf[..n]); Ok(n) }
+            Resp::Interrupted => Err(io::Error::new(io::ErrorKind::Interrupted, "interrupted")),
+            Resp::Fail => Err(io::Error::new(io::ErrorKind::Other, "sink failure")),
+        }
+    }
+    fn flush(&mut self) -> io::Result<()> { Ok(()) }
+}
+/// records the write_all requests as the sink sees them when it accepts everything
+struct Recorder { chunks: Vec<Vec<u8>> }
+impl Write for Recorder {
+    fn write(&mut self, buf: &[u8]) -> io::Result<usize> { if !buf.is_empty() { self.chunks.push(buf.to_vec()); } Ok(buf.len()) }
+    fn flush(&mut self) -> io::Result<()> { Ok(()) }
+}
+
+fn script_tokens(s: &[Resp]) -> String {
+    // run-length encode accepts
+    let mut out: Vec<String> = vec![]; let mut i = 0;
+    while i < s.len() {
+        match s[i] {
+            Resp::Accept(0) => { out.push("z".into()); i += 1; }
+            Resp::Accept(k) => { let mut n = 1; while i + n < s.len() && matches!(s[i + n], Resp::Accept(k2) if k2 == k) { n += 1; } out.push(if n == 1 { format!("a{}", k) } else { format!("a{}x{}", k, n) }); i += n; }
+            Resp::Interrupted => { out.push("i".into()); i += 1; }
+            Resp::Fail => { out.push("e".into()); i += 1; }
+        }
+    }
+    out.join(" ")
+}
+
+enum Target { Plain(Document), Incr(IncrementalDocument) }
+impl Target {
+    fn save<W: Write>(&mut self, w: &mut W) -> io::Result<()> { match self { Target::Plain(d) => d.save_to(w), Target::Incr(d) => d.save_to(w) } }
+    fn clone_t(&self) -> Target { match self { Target::Plain(d) => Target::Plain(d.clone()), Target::Incr(d) => Target::Incr(d.clone()) } }
+}
+
+fn run_script(c: &mut Ctx, t: &Target, chunks: &[Vec<u8>], baseline: &[u8], script: Vec<Resp>, what: &str, expect_ok: bool) {
+    let mut t2 = t.clone_t();
+    let mut sink = ScriptSink { script: script.clone(), pos: 0, delivered: vec![], calls: vec![] };
+    let res = guard(|| t2.save(&mut sink));
+    let req = format!("sink {} ; {}", script_tokens(&script), chunks.iter().map(|c| hex_tok(c)).collect::<Vec<_>>().join(" "));
+    match res {
+        Ok(r) => {
+            // model reply: ok|err <delivered-len>  (counter and issued are model-internal: compared only through their consequences)
+            c.corr(req, format!("{} {}", if r.is_ok() { "ok" } else { "err" }, sink.delivered.len()));
+            if !baseline.starts_with(&sink.delivered) {
+                c.oracle_fail("not-prefix", &format!("{}: delivered bytes are not a prefix of the complete output", what), json!({"script": script_tokens(&script)}));
+            }
+            if r.is_ok() != expect_ok {
+                c.oracle_fail(if expect_ok { "spurious-error" } else { "failure-not-reported" }, &format!("{}: save returned {:?}", what, r.as_ref().err().map(|e| e.kind())), json!({"script": script_tokens(&script)}));
+            }
+            if r.is_ok() && sink.delivered != baseline {
+                c.oracle_fail("chunking-visible", &format!("{}: bytes differ from the baseline although save succeeded", what), json!({"script": script_tokens(&script)}));
+            }
+            // a later save of the same document to a healthy sink produces a valid file with the same content
+            if !expect_ok {
+                let mut again = Vec::new();
+                match t2.save(&mut again) {
+                    Ok(()) => {
+                        let ok = match (Document::load_mem(&again), Document::load_mem(baseline)) {
+                            (Ok(a), Ok(b)) => { let xs = matches!(t, Target::Plain(d) if matches!(d.reference_table.cross_reference_type, XrefType::CrossReferenceStream)) || matches!(t, Target::Incr(_));
+                                                 compare_docs_loose(&b, &a, xs) }
+                            _ => false };
+                        if !ok { c.oracle_fail("resave-differs", &format!("{}: save after a failed save does not load to the same content", what), json!({"script": script_tokens(&script)})); }
+                        c.count("resave.ok");
+                    }
+                    Err(e) => c.oracle_fail("resave-error", &format!("{}: save after a failed save failed: {}", what, e), json!({})),
+                }
+            }
+        }
+        Err((site, msg)) => c.oracle_fail(&format!("panic@{}", site), &format!("{}: {}", what, msg), json!({"script": script_tokens(&script)})),
+    }
+}
+/// both documents were loaded from files; cross-reference stream objects are bookkeeping
+fn compare_docs_loose(a: &Document, b: &Document, _xs: bool) -> bool {
+    let strip = |d: &Document| { let mut d = d.clone(); d.objects.retain(|_, o| !matches!(o, lopdf::Object::Stream(s) if s.dict.has_type(b"XRef"))); d };
+    compare_docs(&strip(a), &strip(b), false).is_none()
+}
+
+/// script that delivers exactly `p` bytes (whole requests, then a partial one) and then responds `last`
+fn script_until(chunks: &[Vec<u8>], p: usize, last: Resp) -> Vec<Resp> {
+    let mut s = vec![]; let mut total = 0;
+    for ch in chunks {
+        if total + ch.len() <= p { s.push(Resp::Accept(ch.len())); total += ch.len(); if total == p && false { break; } }
+        else { if p > total { s.push(Resp::Accept(p - total)); } break; }
+    }
+    s.push(last);
+    s
+}
+
+pub fn run(c: &mut Ctx) {
+    c.rule = "small generated documents x {table, stream} xref x {plain, incremental} save; per document: EVERY byte offset of the complete output as \
+failure position x {hard error, zero-length write} (exhaustive), chunkings of 1..7 and random bytes per accepted write, random transient Interrupted; \
+the request list is recorded from the real run and replayed through the model. Non-trivial = script with a failure or a split; distinct by request text.".into();
+    let n_docs = c.n(6, 40);
+    let mut exhaustive_positions = 0u64;
+    for i in 0..n_docs {
+        let Some(mut r) = c.case("doc", i) else { continue };
+        let mut doc = loop { let d = gen_doc(&mut r); if d.objects.len() >= 1 && d.objects.len() <= 6 { break d; } };
+        let stream = i % 2 == 1;
+        doc.reference_table.cross_reference_type = if stream { XrefType::CrossReferenceStream } else { XrefType::CrossReferenceTable };
+        let incr = i % 4 >= 2;
+        let target = if incr {
+            // previous revision = the plain save of `doc`; new revision adds/replaces objects
+            let mut prev = Vec::new(); let mut d0 = doc.clone(); if d0.save_to(&mut prev).is_err() { continue; }
+            let Ok(mut inc) = IncrementalDocument::load_from(&prev[..]) else { c.count("incr.load_failed"); continue };
+            let id = inc.new_document.new_object_id();
+            inc.new_document.objects.insert(id, gen_obj(&mut r, 2));
+            Target::Incr(inc)
+        } else { Target::Plain(doc.clone()) };
+        c.count(&format!("doc.{}.{}", if incr { "incremental" } else { "plain" }, if stream { "stream" } else { "table" }));
+        // baseline + request list
+        let mut rec = Recorder { chunks: vec![] };
+        let mut t0 = target.clone_t();
+        if t0.save(&mut rec).is_err() { c.count("doc.save_error"); continue; }
+        let chunks = rec.chunks;
+        let baseline: Vec<u8> = chunks.concat();
+        if i < 2 { c.sample(json!({"incremental": incr, "xref_stream": stream, "requests": chunks.len(), "bytes": baseline.len()})); }
+        // chunkings
+        for k in 1..=7usize {
+            let script = vec![Resp::Accept(k); baseline.len() / k + chunks.len() + 2];
+            c.evaluations += 1; c.nontrivial(&format!("{}c{}", i, k));
+            run_script(c, &target, &chunks, &baseline, script, &format!("chunking {}", k), true);
+        }
+        for j in 0..c.n(5, 30) {
+            let mut script = vec![];
+            for _ in 0..(baseline.len() + chunks.len()) { script.push(match r.below(10) { 0 => Resp::Interrupted, _ => Resp::Accept(1 + r.usize(9)) }); }
+            c.evaluations += 1; c.nontrivial(&format!("{}r{}", i, j));
+            run_script(c, &target, &chunks, &baseline, script, "random chunking + Interrupted", true);
+        }
+        // every failure position x {hard error, zero-length write}
+        let step = if c.quick() && baseline.len() > 600 { 3 } else { 1 };
+        let mut p = 0;
+        while p < baseline.len() {
+            for last in [Resp::Fail, Resp::Accept(0)] {
+                let script = script_until(&chunks, p, last);
+                c.evaluations += 1; c.nontrivial(&format!("{}f{}{:?}", i, p, last));
+                run_script(c, &target, &chunks, &baseline, script, &format!("failure at byte {}", p), false);
+                exhaustive_positions += 1;
+            }
+            p += step;
+        }
+    }
+    c.extra.insert("failure_positions_run".into(), json!(exhaustive_positions));
+}
+#[allow(dead_code)]
+fn _unused(_: &mut Rng) {}
